@@ -1277,6 +1277,162 @@ pub fn generate_view(out: &mut Out, rng: &Prng, thorough: bool) {
     g.out.add("c11.announces-checked", n);
 }
 
+impl<'a> Gen<'a> {
+    /// length of the stored path trace list, from the last observation
+    fn stored_path_len(&self, obs: &str) -> Option<usize> {
+        let pt = obs.split(" | ").find(|p| p.starts_with("PT "))?;
+        let f: Vec<&str> = pt.split_whitespace().collect();
+        if f.get(1) != Some(&"1") {
+            return None;
+        }
+        Some(if f.get(2) == Some(&"-") { 0 } else { f.get(2).map(|x| x.split(',').count()).unwrap_or(0) })
+    }
+
+    /// the parent announces on the slave port with a TLV suffix: path traces of every interesting length (with and
+    /// without the own identity), propagating and non-propagating TLVs of many sizes
+    fn parent_announce_tlvs(&mut self, rng: &Prng) -> String {
+        let Some(k) = self.w.ports.iter().position(|p| p.state == "Slave").map(|i| i + 1) else {
+            self.announce_burst(rng);
+            return String::new();
+        };
+        let Some(mi) = self.parent_idx() else {
+            self.announce_burst(rng);
+            return String::new();
+        };
+        self.w.masters[mi].seq = self.w.masters[mi].seq.wrapping_add(1);
+        let m = self.w.masters[mi].clone();
+        let mut f = self.base_frame(rng, 0xb, m.clock, m.port, m.seq);
+        f.flags[1] = m.flags1;
+        f.set_announce(&m.ann);
+        let n = rng.below(4);
+        let mut order: Vec<u8> = (0..n as u8).map(|_| rng.below(5) as u8).collect();
+        if rng.chance(3, 4) {
+            order.insert(rng.below(order.len() as u64 + 1) as usize, 9);
+        }
+        for c in order {
+            match c {
+                9 => {
+                    let len = *rng.pick(&[0usize, 1, 2, 3, 10, 50, 100, 110, 117, 118, 119, 120, 126, 127, 128, 129]);
+                    let mut v = Vec::new();
+                    let own_at = if rng.chance(1, 8) && len > 0 { Some(rng.below(len as u64) as usize) } else { None };
+                    for i in 0..len {
+                        let c = if Some(i) == own_at {
+                            self.w.own_clock
+                        } else {
+                            let mut c = *rng.pick(&CLOCKS[2..]);
+                            c[6] = (i >> 8) as u8 | 0x40;
+                            c[7] = i as u8;
+                            c
+                        };
+                        v.extend_from_slice(&c);
+                    }
+                    f.suffix.extend(tlv(0x0008, &v));
+                }
+                0 => f.suffix.extend(tlv(0x0009, &rng.bytes(2 * rng.below(12) as usize))),
+                1 => {
+                    let ty = *rng.pick(&[0x4000u16, 0x4001, 0x7fff, 0x7f00, 0x4002]);
+                    let len = *rng.pick(&[0usize, 0, 2, 10, 100, 400, 800, 900, 940, 950, 952, 954, 956, 958, 1000, 1100]);
+                    f.suffix.extend(tlv(ty, &rng.bytes(len)));
+                }
+                2 => f.suffix.extend(tlv(*rng.pick(&[0x0001u16, 0x0003, 0x8000, 0x8008, 0x2004, 0x3fff, 0x0002]), &rng.bytes(2 * rng.below(6) as usize))),
+                3 => f.suffix.extend(tlv(0x4000, &[])),
+                _ => f.suffix.extend(tlv(0x0009, &[])),
+            }
+        }
+        self.out.count("gen.parent-announce-tlvs");
+        self.emit(format!("P{k} GEN {}", hex(&f.bytes())))
+    }
+
+    /// announce timers on the Master ports, each with its queue (what the ports forwarded, plus synthetic items
+    /// sized around the room that is left)
+    fn announce_with_queue(&mut self, rng: &Prng, path_len: Option<usize>) {
+        let np = self.w.ports.len();
+        for k in 1..=np {
+            if self.dead {
+                return;
+            }
+            if self.w.ports[k - 1].state != "Master" && !rng.chance(1, 8) {
+                continue;
+            }
+            let loose = rng.chance(1, 2);
+            let mut items: Vec<String> = std::mem::take(&mut self.w.ports[k - 1].queue);
+            let pt_size = match path_len {
+                Some(n) if n < 128 && 4 + 8 * (n + 1) < 960 => 4 + 8 * (n + 1),
+                _ => 0,
+            };
+            let used: usize = items.iter().map(|it| 4 + it.rsplit(':').next().map(|h| if h == "-" { 0 } else { h.len() / 2 }).unwrap_or(0)).sum();
+            let room = (960usize).saturating_sub(pt_size).saturating_sub(used.min(960));
+            if rng.chance(2, 3) {
+                let n = 1 + rng.below(3);
+                for _ in 0..n {
+                    let sender = if rng.chance(3, 4) && !self.w.parent.is_empty() { self.w.parent.clone() } else { format!("{}:1", clock_hex(rng.pick(&CLOCKS))) };
+                    // sizes equal to / one step above / below the room, and a few fixed ones
+                    let size = match rng.below(8) {
+                        0 => room,
+                        1 => room.saturating_sub(2),
+                        2 => room + 2,
+                        3 => 4,
+                        4 => 960,
+                        5 => 958,
+                        _ => 4 + 2 * rng.below(60) as usize,
+                    };
+                    let len = size.saturating_sub(4) & !1;
+                    let ty = *rng.pick(&[0x4000u16, 0x0009, 0x0008, 0x7fff]);
+                    let item = format!("{}:{}:{}", sender, ty, hex(&rng.bytes(len)));
+                    let pos = rng.below(items.len() as u64 + 1) as usize;
+                    items.insert(pos, item);
+                }
+            }
+            let op = format!("P{k} TMR ann {} {}", loose as u8, items.join(" "));
+            let obs = self.emit(op.trim_end().to_string());
+            if let Some(q) = obs.split(" | ").next().and_then(|x| x.rsplit(" q=").next()).and_then(|x| x.parse::<usize>().ok()) {
+                let rem = items.len().saturating_sub(q);
+                self.w.ports[k - 1].queue = items[rem..].to_vec();
+                if self.w.ports[k - 1].queue.len() > 6 {
+                    self.w.ports[k - 1].queue.truncate(6);
+                }
+            }
+        }
+    }
+}
+
+/// C15: boundary clocks forwarding the TLVs of their parent
+pub fn generate_tlv(out: &mut Out, rng: &Prng, thorough: bool) {
+    let mut g = new_gen(out);
+    let scenarios = if thorough { 4000 } else { 250 };
+    for _ in 0..scenarios {
+        g.start_scenario(rng);
+        for _ in 0..3 {
+            if !g.dead && !g.w.ports.iter().any(|p| p.state == "Slave") {
+                g.announce_burst(rng);
+            }
+        }
+        // other ports take over as masters of their segments
+        for k in 1..=g.w.ports.len() {
+            if !g.dead && g.w.ports[k - 1].state == "Listening" {
+                g.emit(format!("P{k} TMR rcpt"));
+            }
+        }
+        let mut path_len: Option<usize> = None;
+        let len = 30 + rng.below(if thorough { 160 } else { 70 }) as usize;
+        while !g.dead && g.ops_in_scenario < len {
+            match rng.below(20) {
+                0..=7 => {
+                    let obs = g.parent_announce_tlvs(rng);
+                    if !obs.is_empty() {
+                        path_len = g.stored_path_len(&obs);
+                    }
+                }
+                8..=15 => g.announce_with_queue(rng, path_len),
+                16 => g.bmca_op(rng),
+                17 => g.announce_op(rng),
+                _ => g.step(rng),
+            }
+        }
+        g.out.count("scenario");
+    }
+}
+
 /// C10: master-side stream. Sequence number wrap-around runs plus dense master traffic with edge timestamps.
 pub fn generate_master(out: &mut Out, rng: &Prng, thorough: bool) {
     let mut g = new_gen(out);
